@@ -155,8 +155,10 @@ func runC20(c *Ctx) {
 		c.J.Log("CASE %s kind=%s cap=%v sasl=%v tracking=%v passlen=%d", Case("pw", idx), kind, capn, useSasl, tracking, len(pass))
 		// control runs with an empty password: the same session (the write fault one line earlier, as there is no
 		// PASS line) and a complete successful one; a password occurring in either log is trivial
+		// (the masked record itself is a constant part of every log with a password)
+		trivialMask := strings.Contains("-> PASS **************", pass)
 		failAt := 1 + r.Intn(2) // at most the second write: every session writes at least NICK and USER
-		trivial := false
+		trivial := trivialMask
 		for _, ck := range []struct {
 			kind string
 			at   int
